@@ -492,10 +492,14 @@ pub struct WireMsg {
 	pub body: String,
 	#[serde(default)]
 	pub att: Option<(u32, u64)>,
+	/// the last `pad` bytes of `body` are padding behind a complete message body: the frame announces
+	/// more than its decoder needs (still within the type's limit), as a newer peer's extra fields would
+	#[serde(default)]
+	pub pad: u16,
 }
 
 fn wire<T: Writeable>(t: Type, x: &T, v: u32) -> Result<WireMsg, String> {
-	enc(x, v).map(|b| WireMsg { t: t as u8, body: hexs(&b), att: None }).map_err(|e| format!("{:?}", e))
+	enc(x, v).map(|b| WireMsg { t: t as u8, body: hexs(&b), att: None, pad: 0 }).map_err(|e| format!("{:?}", e))
 }
 
 /// typed value -> wire message at version v. Err(reason) = this value cannot be written at
@@ -562,7 +566,7 @@ fn build_msg(spec: &MsgSpec, v: u32, p: &Pool) -> Result<WireMsg, String> {
 				v,
 			)
 		}
-		MsgSpec::Unknown(t, len, seed) => Ok(WireMsg { t: (*t).max(29), body: hexs(&expand(*seed, 7, *len as usize)), att: None }),
+		MsgSpec::Unknown(t, len, seed) => Ok(WireMsg { t: (*t).max(29), body: hexs(&expand(*seed, 7, *len as usize)), att: None, pad: 0 }),
 	}
 }
 
@@ -864,6 +868,7 @@ struct Sent {
 	t: u8,
 	body: Vec<u8>,
 	att: Option<Vec<u8>>,
+	pad: usize,
 }
 
 fn sent_of(case: &WireCase) -> Result<(Vec<Sent>, Vec<u8>), Fail> {
@@ -883,7 +888,7 @@ fn sent_of(case: &WireCase) -> Result<(Vec<Sent>, Vec<u8>), Fail> {
 		if let Some(a) = &att {
 			stream.extend_from_slice(a);
 		}
-		sent.push(Sent { t: m.t, body, att });
+		sent.push(Sent { t: m.t, body, att, pad: m.pad as usize });
 	}
 	Ok((sent, stream))
 }
@@ -969,6 +974,9 @@ fn read_and_compare(codec: &mut Codec, v: u32, sent: &[Sent], total: usize, st: 
 		let r = rd!(i, s.t);
 		let m = match r {
 			Ok(m) => m,
+			// a frame that announces more than its message needs may be refused (the connection is then
+			// dropped: nothing more to compare) — what it must not do is shift the frame boundary
+			Err(_) if s.pad > 0 => return Ok(Once::Done(())),
 			Err(e) => fail!(format!("frag-read-error:{}", name), "message {} ({}, {} body bytes): read returned Err({:?})", i, name, s.body.len(), e),
 		};
 		let att_size = match &m {
@@ -980,7 +988,7 @@ fn read_and_compare(codec: &mut Codec, v: u32, sent: &[Sent], total: usize, st: 
 			Ok((t, b)) => {
 				ensure!(t == s.t, "frag-variant-mismatch", "message {}: sent {} but read {}", i, name, shown);
 				ensure!(
-					b == s.body,
+					b == s.body[..s.body.len() - s.pad],
 					format!("frag-body-mismatch:{}", name),
 					"message {} ({}): read value re-encodes as {} but {} was sent",
 					i,
@@ -2016,6 +2024,40 @@ pub fn run(ctx: &Ctx) -> HResult<()> {
 		}
 		let fails = par_for(&slow, 16.max(threads), |wc| check_frag(ctx, wc, true));
 		settle(ctx, "frag", fails.into_iter().map(|(i, f)| (serde_json::to_value(&slow[i]).unwrap(), f)).collect())?;
+	}
+
+	// ---- over-long frames of known types: the announced length (within the limit of the type) exceeds
+	// what the message needs. The frame boundary is where the header says, whatever the decoder
+	// consumed: the messages that follow are read as sent (or the frame is refused)
+	{
+		let mut padded: Vec<WireCase> = vec![];
+		for (k, v) in VERSIONS.iter().enumerate() {
+			for (j, pad) in [1usize, 8, HDR, HDR + 16, 48].iter().enumerate() {
+				let Ok(mut first) = build_msg(&MsgSpec::Ping(7 + k as u64, j as u64), *v, p) else { continue };
+				let Ok(follow) = build_msg(&MsgSpec::Pong(5, k as u64 + j as u64), *v, p) else { continue };
+				let Ok(last) = build_msg(&MsgSpec::Ping(9, 9), *v, p) else { continue };
+				let mut body = unhex(&first.body).map_err(|f| HarnessError(f.msg))?;
+				// the padding: zeros, or — when it is long enough — a complete well-formed frame
+				let fill: Vec<u8> = if *pad >= HDR + 16 {
+					let inner = unhex(&follow.body).map_err(|f| HarnessError(f.msg))?;
+					let mut f = frame_header(OTHER_MAGIC, Type::Pong as u8, inner.len() as u64);
+					f.extend_from_slice(&inner);
+					f.resize(*pad, 0);
+					f
+				} else {
+					vec![0u8; *pad]
+				};
+				body.extend_from_slice(&fill);
+				first.body = hexs(&body);
+				first.pad = *pad as u16;
+				let msgs = vec![first, follow, last];
+				let total = layout(&msgs).1;
+				padded.push(WireCase { version: *v, msgs: msgs.clone(), cuts: vec![], delays_us: vec![], kind: "padded-frame".into() });
+				padded.push(WireCase { version: *v, msgs, cuts: (1..total).step_by(5).collect(), delays_us: vec![0, 50], kind: "padded-frame".into() });
+			}
+		}
+		let fails = par_for(&padded, threads, |wc| check_frag(ctx, wc, true));
+		settle(ctx, "frag", fails.into_iter().map(|(i, f)| (serde_json::to_value(&padded[i]).unwrap(), f)).collect())?;
 	}
 
 	// ---- refused frames
